@@ -15,6 +15,8 @@ func init() {
 }
 
 func runC04(c *rules.Ctx) {
+	balancerPokeRules(c)
+	poolParamsValidateRules(c)
 	const B = "x/gamm/pool-models/balancer.Pool."
 	const S = "x/gamm/pool-models/stableswap.Pool."
 	const CF = "x/gamm/pool-models/internal/cfmm_common."
